@@ -303,5 +303,8 @@ m("C04", "C04-debug-getmetatable-protected", "R04-events:debugGetMetatable:reads
 m("C15", "C15-huge-finite", "R15-mathmap:huge:is-positive-infinity", ("mathlib.go", "LNumber(math.Inf(1))", "LNumber(math.MaxFloat64)"))
 
 m("C16", "C16-yday-constant", "R16-time:osDate:field-components", ("oslib.go", "ret.RawSetString(\"yday\", LNumber(t.YearDay()))", "ret.RawSetString(\"yday\", LNumber(0))"))
+
+m("C18", "C18-sort-nil-comparator-checked", "R18-lib:tableSort:nil-comparator-is-no-comparator", ("tablelib.go", "\tif L.GetTop() != 1 && L.Get(2) != LNil {", "\tif L.GetTop() != 1 {"))
+m("C18", "C18-insert-extra-arguments", "R18-lib:tableInsert:two-or-three-arguments", ("tablelib.go", "\tif nargs != 2 && nargs != 3 {", "\tif nargs < 2 {"))
 if __name__ == "__main__":
     main()
